@@ -140,191 +140,163 @@ end Scrollbar
 
 /-! ## vxfw/list `Dynamic`
 
-The Builder is any list `hs` of widget heights (`nil` past its end).  `DynList.genFacts` carries the
-regenerated facts that the cursor-gutter block checks `d.cursor >= d.scroll.top` (F119) and that
-`insertChildren` stops once the height is used up (F119f). -/
+The Builder is any list `hs` of widget heights (`nil` past its end); in a history the application
+may replace it at any point (`HOp.items`) without telling `Dynamic`.  `DynList.genFacts` carries the
+regenerated facts that the five repairs are present in the source: the cursor-gutter guard (F119),
+the stop condition of `insertChildren` (F119f), the walk back to an existing top widget at the
+start of `Draw` (F119b), the gap counted by the upward-scroll code and the re-anchoring loop
+(F119c), and the wants-cursor block revealing a widget above the viewport (F119d). -/
 
 section Dyn
 open VaxisModel.Model.DynList VaxisModel.Lemmas.DynList
 
-/-- The source carries the F119 guard and the F119f stop condition. -/
-theorem dyn_repairs_present : genFacts = ⟨true, true⟩ := by decide
+/-- The source carries all five repairs. -/
+theorem dyn_repairs_present : genFacts = Facts.fixed := by decide
 
-/-- The full layout statement: every `Draw`, from any state, for any gap, returns its children in
-    index order, contiguous (each directly below the previous one plus the gap — hence without
-    overlap for gap ≥ 0) and with the builder's heights.  It is FALSE of the code for gap > 0 after an
-    upward scroll (finding F119c, `Witness/F119.lean`); the proved theorem is `dyn_layout_partial`. -/
-def dyn_layout_full : Prop :=
-  ∀ (cfg : Cfg) (hs : List Nat) (s : St) (W H : Nat) (s' : St) (cs : List Child), s.top < U →
-    draw genFacts cfg hs s W H = .ok (s', cs) → Contig cfg.gap cs ∧ Heights hs cs
-
-/-- **Layout (partial: gap = 0, or no upward scroll in this draw)** — from ANY scroll state (cursor,
-    top, offset, pending scroll, wants-cursor flag — reachable or not), any builder heights, any
-    viewport: the children returned by `Draw` are in index order, each directly below the previous
-    one plus the gap, and each has the height of its builder widget.  Missing for the full
-    statement: children inserted above the top by `insertChildren` ignore a non-zero gap. -/
-theorem dyn_layout_partial (cfg : Cfg) (hs : List Nat) (s : St) (W H : Nat) (s' : St) (cs : List Child)
-    (hU : s.top < U)
-    (hg : cfg.gap = 0 ∨ ¬ (0 < - (s.offset + s.pending) ∧ s.top ≠ 0))
-    (he : draw genFacts cfg hs s W H = .ok (s', cs)) :
-    Contig cfg.gap cs ∧ Heights hs cs :=
-  draw_layout _ cfg hs s W H hU hg s' cs he
+/-- **Layout — every gap, every state.**  Every `Draw`, from ANY scroll state (cursor, top, offset,
+    pending scroll, wants-cursor flag — reachable or not, stale after a replacement of the items or
+    not), for any gap, any builder heights and any viewport, returns its children in index order,
+    each directly below the previous one plus the gap, and each with the height of its builder
+    widget.  (Before repair F119c this was false for gap > 0 after an upward scroll:
+    `Witness.F119.dyn_layout_fails_unfixed`.) -/
+theorem dyn_layout (cfg : Cfg) (hs : List Nat) (s : St) (W H : Nat) (s' : St) (cs : List Child)
+    (hU : s.top < U) (he : draw genFacts cfg hs s W H = .ok (s', cs)) :
+    Contig cfg.gap cs ∧ Heights hs cs := by
+  rw [dyn_repairs_present] at he
+  exact draw_layout _ cfg hs s W H hU rfl (Or.inl rfl) s' cs he
 
 /-- Contiguity means: consecutive indices, no overlap and no hole (unfolding of `Contig`). -/
 theorem contig_pair (gap : Int) (c d : Child) (rest : List Child) (h : Contig gap (c :: d :: rest)) :
     d.idx = c.idx + 1 ∧ d.row = c.row + (c.height : Int) + gap ∧ Contig gap (d :: rest) :=
   ⟨h.1.1, h.1.2, h.2⟩
 
-/-- Non-vacuity of `dyn_layout_partial`: three items, scrolled up by one row from the second. -/
-example : (match draw ⟨true, true⟩ ⟨0, false⟩ [2, 3, 1] ⟨1, 1, 0, -1, false⟩ 4 3 with
-    | .ok (_, cs) => cs.map (fun c => (c.idx, c.row, c.height)) == [(0, -1, 2), (1, 1, 3)]
+/-- **No overlap, in order** — with a gap ≥ 0 any two children returned by a `Draw` (from any state)
+    are in index order and the earlier one ends (with its gap) at or above the row where the later
+    one starts. -/
+theorem dyn_no_overlap (cfg : Cfg) (hgap : 0 ≤ cfg.gap) (hs : List Nat) (s : St) (W H : Nat) (s' : St) (cs : List Child)
+    (hU : s.top < U) (he : draw genFacts cfg hs s W H = .ok (s', cs))
+    (i j : Nat) (ci cj : Child) (hij : i < j) (hi : cs[i]? = some ci) (hj : cs[j]? = some cj) :
+    ci.idx < cj.idx ∧ ci.row + (ci.height : Int) + cfg.gap ≤ cj.row :=
+  contig_pairwise hgap cs (dyn_layout cfg hs s W H s' cs hU he).1 i j ci cj hij hi hj
+
+/-- Non-vacuity of `dyn_layout`: gap 1, three items, scrolled up by two rows from the second. -/
+example : (match draw Facts.fixed ⟨1, false⟩ [2, 3, 1] ⟨1, 1, 0, -2, false⟩ 4 3 with
+    | .ok (_, cs) => cs.map (fun c => (c.idx, c.row, c.height)) == [(0, -1, 2), (1, 2, 3)]
     | .error _ => false) = true := by decide
 
 /-- **No panic with 0 items** — for a Builder that has no widgets, every history of
     SetCursor/NextItem/PrevItem/wheel/SetPendingScroll/Draw (cursors below 2^63, bounded draw
-    contexts, any gap, with or without the cursor gutter) runs without panic. -/
+    contexts, ANY gap even negative, with or without the cursor gutter) runs without panic. -/
 theorem dyn_no_panic_empty (cfg : Cfg) (ops : List Op) (ho : ∀ op ∈ ops, OpOk op) :
     ∃ s, run genFacts cfg [] init ops = .ok s :=
   let ⟨s, he, _⟩ := run_empty _ cfg ops init ⟨rfl, by decide⟩ ho
   ⟨s, he⟩
 
+/-- **No panic — all histories, all gaps ≥ 0, items replaced at will.**  For every initial builder
+    and every history of SetCursor/NextItem/PrevItem/wheel/SetPendingScroll/Draw interleaved with
+    replacements of the Builder's items by any other list (more, fewer, other heights, none), with
+    or without the cursor gutter, any viewport sizes including 0 rows (cursors below 2^63, bounded
+    draw contexts, fewer than 2^63 items): nothing panics and the indices stay sane. -/
+theorem dyn_no_panic (cfg : Cfg) (hgap : 0 ≤ cfg.gap) (hs : List Nat) (hlen : hs.length < 2 ^ 63)
+    (ops : List HOp) (ho : ∀ op ∈ ops, HOpOk op) :
+    ∃ hs' s, runH genFacts cfg hs init ops = .ok (hs', s) ∧ s.top < 2 ^ 63 ∧ s.cursor < 2 ^ 63 ∧
+      (s.wantsCursor = true → s.top ≤ s.cursor) := by
+  rw [dyn_repairs_present]
+  obtain ⟨hs', s, he, hi, _⟩ := runH_inv cfg hgap ops hs init hlen init_inv ho
+  exact ⟨hs', s, he, hi.top_ok, hi.cur_ok, hi.wants_ok⟩
 
-/-- **No panic over whole histories (gap 0)** — for every fixed builder (any number of items, any
-    heights including 0), gap 0, with or without the cursor gutter: every history of
-    SetCursor/NextItem/PrevItem/wheel/SetPendingScroll/Draw (cursors below 2^63, bounded draw
-    contexts, any viewport sizes) runs without panic, the top index always refers to an existing
-    item (or is 0), and the cursor stays a sane index. -/
-theorem dyn_no_panic (cfg : Cfg) (hgap : cfg.gap = 0) (hs : List Nat) (hlen : hs.length < 2 ^ 63)
+/-- **The top index refers to an existing item** — after every `Draw` (from any state satisfying the
+    history invariant, any builder, gap ≥ 0) the top index is 0 or the index of an item the Builder
+    has now; and over histories with a fixed builder it is so at every point. -/
+theorem dyn_top_valid (cfg : Cfg) (hgap : 0 ≤ cfg.gap) (hs : List Nat) (hlen : hs.length < 2 ^ 63)
     (ops : List Op) (ho : ∀ op ∈ ops, OpOk op) :
     ∃ s, run genFacts cfg hs init ops = .ok s ∧ (s.top = 0 ∨ s.top < hs.length) ∧ s.cursor < 2 ^ 63 := by
-  obtain ⟨s, he, hi⟩ := run_inv3 genFacts (by rw [dyn_repairs_present]) cfg hgap hs hlen ops init (init_inv3 hs) ho
-  exact ⟨s, he, hi.top_ok, hi.cur_ok⟩
+  rw [dyn_repairs_present]
+  obtain ⟨s, he, hi, ht⟩ := run_inv_top cfg hgap hs hlen ops init init_inv (Or.inl rfl) ho
+  exact ⟨s, he, ht, hi.cur_ok⟩
 
-/-- The full visibility statement (any gap ≥ 0): after ANY history from the initial state with a
-    fixed builder that leaves no pending scroll, a selection change to an existing item of height ≥ 1
-    followed by a `Draw` into a viewport of height ≥ 1 shows the selected item: its rows intersect
-    the viewport, and it is fully inside when it fits.  It is proved for gap = 0
-    (`dyn_cursor_visible`); for gap > 0 it is FALSE of the code (finding F119e, replayed from
-    corpus/C19/F119e-gap-row0.ops: row 0 can fall into a gap, then no child re-anchors top/offset). -/
-def dyn_cursor_visible_full : Prop :=
-  ∀ (cfg : Cfg) (hs : List Nat) (ops : List Op) (s : St) (c W H hc : Nat),
-    0 ≤ cfg.gap → hs.length < 2 ^ 63 → W ≠ 65535 → H ≠ 65535 → 1 ≤ H → (∀ op ∈ ops, OpOk1 op) →
-    run genFacts cfg hs init ops = .ok s → s.pending = 0 →
-    hs[c]? = some hc → 1 ≤ hc →
-    ∃ s' cs, draw genFacts cfg hs (setCursor s c) W H = .ok (s', cs) ∧
-      ∃ ch ∈ cs, ch.idx = c ∧ ch.height = hc ∧ Visible H ch
+/-- **NextItem / PrevItem keep the selection on an existing item** — whenever they move the cursor
+    (return a command) the new cursor is the index of an item the Builder has. -/
+theorem dyn_next_prev_in_range (hs : List Nat) (s s1 : St) (hcu : s.cursor < 2 ^ 63)
+    (hmove : (nextItem hs s = (s1, true)) ∨ (prevItem hs s = (s1, true))) : s1.cursor < hs.length := by
+  obtain ⟨c, hc, _, e2⟩ := next_prev_cases hs s s1 hcu hmove
+  rw [e2]; exact hc
 
-/-- **Selected item visible (partial: from a settled scroll state)** — for every builder, every
-    gap ≥ 0, every viewport height ≥ 1: from any state that has no pending scroll and whose line
-    offset lies within its top item (`Settled`), `SetCursor(c)` to an existing item of height ≥ 1
-    followed by `Draw` does not panic and returns a child for item `c` whose rows intersect the
-    viewport and which lies fully inside the viewport when it fits.  Extra hypothesis compared with
-    `dyn_cursor_visible_full`: `Settled hs s` is assumed instead of derived from the history. -/
-theorem dyn_cursor_visible_partial (cfg : Cfg) (hs : List Nat) (s : St) (c W H hc : Nat)
-    (hgap : 0 ≤ cfg.gap) (hW : W ≠ 65535) (hH : H ≠ 65535) (hH1 : 1 ≤ H)
-    (hs0 : Settled hs s) (hcur : hs[c]? = some hc) (hc1 : 1 ≤ hc) (hc63 : c < 2 ^ 63) :
+/-- **Selected item visible — from ANY scroll state.**  For every builder, every gap, every viewport
+    of ≥ 1 row: from any state with a sane top index and no pending scroll (whatever top, offset and
+    the wants-cursor flag are — e.g. stale after the items were replaced), `SetCursor(c)` to an
+    existing item of height ≥ 1 followed by `Draw` does not panic and returns a child for item `c`
+    whose rows intersect the viewport and which lies fully inside the viewport when it fits. -/
+theorem dyn_cursor_visible_any_state (cfg : Cfg) (hs : List Nat) (hlen : hs.length < 2 ^ 63) (s : St) (c W H hc : Nat)
+    (hW : W ≠ 65535) (hH : H ≠ 65535) (hH1 : 1 ≤ H)
+    (ht : s.top < 2 ^ 63) (hp : s.pending = 0) (hcur : hs[c]? = some hc) (hc1 : 1 ≤ hc) :
     ∃ s' cs, draw genFacts cfg hs (setCursor s c) W H = .ok (s', cs) ∧
       ∃ ch ∈ cs, ch.idx = c ∧ ch.height = hc ∧ Visible H ch := by
   rw [dyn_repairs_present]
-  exact ensureScroll_draw_visible true cfg hs s c W H hc hgap hW hH hH1 hs0 hcur hc1 hc63
+  exact ensureScroll_draw_visible cfg hs hlen s c W H hc hW hH hH1 ht hp hcur hc1
 
-/-- The same for `NextItem` and `PrevItem` (when they move the cursor, i.e. return a command). -/
-theorem dyn_next_prev_visible_partial (cfg : Cfg) (hs : List Nat) (s : St) (W H : Nat)
-    (hgap : 0 ≤ cfg.gap) (hW : W ≠ 65535) (hH : H ≠ 65535) (hH1 : 1 ≤ H)
-    (hs0 : Settled hs s) (hpos : ∀ h ∈ hs, 1 ≤ h) (hlen : hs.length < 2 ^ 63) (hcu : s.cursor < 2 ^ 63)
-    (s1 : St) (hmove : (nextItem hs s = (s1, true)) ∨ (prevItem hs s = (s1, true))) :
-    ∃ s' cs, draw genFacts cfg hs s1 W H = .ok (s', cs) ∧
-      ∃ ch ∈ cs, ch.idx = s1.cursor ∧ Visible H ch := by
-  rw [dyn_repairs_present]
-  have key : ∀ c hc, hs[c]? = some hc → s1 = ensureScroll { s with cursor := c } → s1.cursor = c →
-      ∃ s' cs, draw ⟨true, true⟩ cfg hs s1 W H = .ok (s', cs) ∧ ∃ ch ∈ cs, ch.idx = s1.cursor ∧ Visible H ch := by
-    intro c hc hcur e1 e2
-    have hc1 : 1 ≤ hc := hpos hc (List.mem_of_getElem? hcur)
-    have hc63 : c < 2 ^ 63 := Nat.lt_trans (getElem?_lt hcur) hlen
-    obtain ⟨s', cs, hd, ch, hm, hi, _, hv⟩ := ensureScroll_draw_visible true cfg hs s c W H hc hgap hW hH hH1 hs0 hcur hc1 hc63
-    exact ⟨s', cs, by rw [e1]; exact hd, ch, hm, by rw [e2]; exact hi, hv⟩
-  have cur_es : ∀ c, (ensureScroll { s with cursor := c }).cursor = c := by
-    intro c; unfold ensureScroll; simp only []; split <;> rfl
-  rcases hmove with h | h
-  · have hu : uadd s.cursor 1 = s.cursor + 1 := by unfold uadd U; omega
-    unfold nextItem at h
-    rw [hu] at h
-    cases hb : builder hs (s.cursor + 1) with
-    | none => rw [hb] at h; cases h
-    | some hc =>
-      rw [hb] at h
-      have e : s1 = ensureScroll { s with cursor := s.cursor + 1 } := (Prod.mk.inj h).1.symm
-      exact key _ hc hb e (by rw [e]; exact cur_es _)
-  · unfold prevItem at h
-    by_cases h0 : s.cursor = 0
-    · rw [if_pos h0] at h; cases h
-    · rw [if_neg h0] at h
-      have hu : usub s.cursor 1 = s.cursor - 1 := usub_le (by omega) hcu
-      rw [hu] at h
-      cases hb : builder hs (s.cursor - 1) with
-      | none => rw [hb] at h; cases h
-      | some hc =>
-        rw [hb] at h
-        have e : s1 = ensureScroll { s with cursor := s.cursor - 1 } := (Prod.mk.inj h).1.symm
-        exact key _ hc hb e (by rw [e]; exact cur_es _)
-
-/-- **Selected item visible — all histories, gap 0.**  For every fixed builder (any heights), gap 0,
-    with or without the cursor gutter, and every history of SetCursor/NextItem/PrevItem/wheel/
-    SetPendingScroll/Draw from the initial state (cursors below 2^63, draw contexts bounded and at
-    least one row high) that leaves no pending scroll: `SetCursor(c)` to an existing item of height
-    ≥ 1 followed by `Draw` into a viewport of height ≥ 1 does not panic and returns a child for item
-    `c` whose rows intersect the viewport and which is fully inside the viewport when it fits.
-    (Proof: `Inv4` — top index valid, wants-cursor implies top ≤ cursor, `0 ≤ offset < height(top)` —
-    is an invariant of every operation; it needs both repairs F119 and F119f.) -/
-theorem dyn_cursor_visible (cfg : Cfg) (hgap : cfg.gap = 0) (hs : List Nat) (hlen : hs.length < 2 ^ 63)
-    (ops : List Op) (ho : ∀ op ∈ ops, OpOk1 op) (s : St)
-    (hrun : run genFacts cfg hs init ops = .ok s) (hp : s.pending = 0)
+/-- **Selected item visible — all histories, all gaps ≥ 0, items replaced at will.**  After ANY
+    history from the initial state (SetCursor/NextItem/PrevItem/wheel/SetPendingScroll/Draw with any
+    viewports, interleaved with replacements of the Builder's items) that leaves no pending scroll:
+    `SetCursor(c)` to an item the Builder has now (height ≥ 1) followed by `Draw` into a viewport of
+    ≥ 1 row does not panic and shows item `c`: its rows intersect the viewport, and it is fully
+    inside when it fits. -/
+theorem dyn_cursor_visible (cfg : Cfg) (hgap : 0 ≤ cfg.gap) (hs0 : List Nat) (hlen0 : hs0.length < 2 ^ 63)
+    (ops : List HOp) (ho : ∀ op ∈ ops, HOpOk op) (hs : List Nat) (s : St)
+    (hrun : runH genFacts cfg hs0 init ops = .ok (hs, s)) (hp : s.pending = 0)
     (c W H hc : Nat) (hW : W ≠ 65535) (hH : H ≠ 65535) (hH1 : 1 ≤ H)
     (hcur : hs[c]? = some hc) (hc1 : 1 ≤ hc) :
     ∃ s' cs, draw genFacts cfg hs (setCursor s c) W H = .ok (s', cs) ∧
       ∃ ch ∈ cs, ch.idx = c ∧ ch.height = hc ∧ Visible H ch := by
-  obtain ⟨s1, he, hi⟩ := run_inv4 genFacts (by rw [dyn_repairs_present]) (by rw [dyn_repairs_present])
-    cfg hgap hs hlen ops init (init_inv4 hs) ho
-  rw [hrun] at he; cases he
-  have hcn : c < hs.length := getElem?_lt hcur
-  exact dyn_cursor_visible_partial cfg hs s c W H hc (by rw [hgap]; exact Int.le_refl 0) hW hH hH1
-    (inv4_settled hs s hi hp (by omega)) hcur hc1 (by omega)
+  have hrun' := hrun
+  rw [dyn_repairs_present] at hrun'
+  obtain ⟨hs', s1, he, hi, hl⟩ := runH_inv cfg hgap ops hs0 init hlen0 init_inv ho
+  rw [hrun'] at he; cases he
+  exact dyn_cursor_visible_any_state cfg hs hl s c W H hc hW hH hH1 hi.top_ok hp hcur hc1
 
-/-- The same for `NextItem` / `PrevItem` after any history (gap 0, all heights ≥ 1). -/
-theorem dyn_next_prev_visible (cfg : Cfg) (hgap : cfg.gap = 0) (hs : List Nat) (hlen : hs.length < 2 ^ 63)
-    (hpos : ∀ h ∈ hs, 1 ≤ h)
-    (ops : List Op) (ho : ∀ op ∈ ops, OpOk1 op) (s : St)
-    (hrun : run genFacts cfg hs init ops = .ok s) (hp : s.pending = 0)
-    (W H : Nat) (hW : W ≠ 65535) (hH : H ≠ 65535) (hH1 : 1 ≤ H)
-    (s1 : St) (hmove : (nextItem hs s = (s1, true)) ∨ (prevItem hs s = (s1, true))) :
+/-- The same for `NextItem` / `PrevItem` from any state (when they move the cursor, i.e. return a
+    command; the newly selected item has height ≥ 1). -/
+theorem dyn_next_prev_visible_any_state (cfg : Cfg) (hs : List Nat) (hlen : hs.length < 2 ^ 63) (s : St) (W H : Nat)
+    (hW : W ≠ 65535) (hH : H ≠ 65535) (hH1 : 1 ≤ H)
+    (ht : s.top < 2 ^ 63) (hcu : s.cursor < 2 ^ 63) (hp : s.pending = 0)
+    (s1 : St) (hmove : (nextItem hs s = (s1, true)) ∨ (prevItem hs s = (s1, true)))
+    (hpos : ∀ h, hs[s1.cursor]? = some h → 1 ≤ h) :
     ∃ s' cs, draw genFacts cfg hs s1 W H = .ok (s', cs) ∧
       ∃ ch ∈ cs, ch.idx = s1.cursor ∧ Visible H ch := by
-  obtain ⟨s0, he, hi⟩ := run_inv4 genFacts (by rw [dyn_repairs_present]) (by rw [dyn_repairs_present])
-    cfg hgap hs hlen ops init (init_inv4 hs) ho
-  rw [hrun] at he; cases he
-  have hn : 0 < hs.length := by
-    rcases hmove with h | h
-    · unfold nextItem at h
-      cases hb : builder hs (uadd s.cursor 1) with
-      | none => rw [hb] at h; cases h
-      | some x => have := getElem?_lt hb; omega
-    · unfold prevItem at h
-      split at h
-      · cases h
-      · cases hb : builder hs (usub s.cursor 1) with
-        | none => rw [hb] at h; cases h
-        | some x => have := getElem?_lt hb; omega
-  exact dyn_next_prev_visible_partial cfg hs s W H (by rw [hgap]; exact Int.le_refl 0) hW hH hH1
-    (inv4_settled hs s hi hp hn) hpos hlen hi.inv3.cur_ok s1 hmove
+  rw [dyn_repairs_present]
+  obtain ⟨c, hc, e1, e2⟩ := next_prev_cases hs s s1 hcu hmove
+  have hget : hs[c]? = some (hs[c]'hc) := List.getElem?_eq_getElem hc
+  obtain ⟨s', cs, hd, ch, hm, hi, _, hv⟩ :=
+    ensureScroll_draw_visible cfg hs hlen s c W H (hs[c]'hc) hW hH hH1 ht hp hget (hpos _ (by rw [e2]; exact hget))
+  exact ⟨s', cs, by rw [e1]; exact hd, ch, hm, by rw [e2]; exact hi, hv⟩
 
-/-- Non-vacuity of the history theorems: a concrete history ending with nothing pending. -/
-example : (match run ⟨true, true⟩ ⟨0, true⟩ [1, 1, 5, 2] init
-      [.setCursor 3, .draw 4 2, .pending (-2), .draw 4 5, .wheelDown, .draw 4 5, .next] with
-    | .ok s => s.pending == 0 | .error _ => false) = true := by decide
+/-- **NextItem / PrevItem show the selection — all histories, all gaps ≥ 0, items replaced at will.** -/
+theorem dyn_next_prev_visible (cfg : Cfg) (hgap : 0 ≤ cfg.gap) (hs0 : List Nat) (hlen0 : hs0.length < 2 ^ 63)
+    (ops : List HOp) (ho : ∀ op ∈ ops, HOpOk op) (hs : List Nat) (s : St)
+    (hrun : runH genFacts cfg hs0 init ops = .ok (hs, s)) (hp : s.pending = 0)
+    (W H : Nat) (hW : W ≠ 65535) (hH : H ≠ 65535) (hH1 : 1 ≤ H)
+    (s1 : St) (hmove : (nextItem hs s = (s1, true)) ∨ (prevItem hs s = (s1, true)))
+    (hpos : ∀ h ∈ hs, 1 ≤ h) :
+    ∃ s' cs, draw genFacts cfg hs s1 W H = .ok (s', cs) ∧
+      ∃ ch ∈ cs, ch.idx = s1.cursor ∧ Visible H ch := by
+  have hrun' := hrun
+  rw [dyn_repairs_present] at hrun'
+  obtain ⟨hs', s0, he, hi, hl⟩ := runH_inv cfg hgap ops hs0 init hlen0 init_inv ho
+  rw [hrun'] at he; cases he
+  exact dyn_next_prev_visible_any_state cfg hs hl s W H hW hH hH1 hi.top_ok hi.cur_ok hp s1 hmove
+    (fun h hh => hpos h (List.mem_of_getElem? hh))
 
-/-- Non-vacuity: a settled state (top item 1 scrolled by one row), cursor moved to item 3. -/
-example : (match draw ⟨true, true⟩ ⟨0, false⟩ [2, 3, 1, 2] (setCursor ⟨1, 1, 1, 0, false⟩ 3) 4 3 with
-    | .ok (_, cs) => cs.map (fun c => (c.idx, c.row, c.height)) == [(1, -3, 3), (2, 0, 1), (3, 1, 2)]
+/-- Non-vacuity of the history theorems: a concrete history with gap 1 in which the items are
+    replaced by fewer than the top index, ending with nothing pending. -/
+example : (match runH Facts.fixed ⟨1, true⟩ [1, 1, 5, 2] init
+      [.op (.setCursor 3), .op (.draw 4 2), .op (.pending (-2)), .items [2], .op (.draw 4 5), .op .wheelDown,
+       .op (.draw 4 5), .items [1, 1, 1], .op .next] with
+    | .ok (hs, s) => s.pending == 0 && hs.length == 3 | .error _ => false) = true := by decide
+
+/-- Non-vacuity: a stale state (top item 1, offset 7 — more than all the content) with gap 2; the
+    cursor moved to item 3 is shown at the bottom of the 3-row viewport. -/
+example : (match draw Facts.fixed ⟨2, false⟩ [2, 3, 1, 2] (setCursor ⟨1, 1, 30, 0, false⟩ 3) 4 3 with
+    | .ok (_, cs) => cs.map (fun c => (c.idx, c.row, c.height)) == [(1, -8, 3), (2, -3, 1), (3, 0, 2)]
     | .error _ => false) = true := by decide
 
 end Dyn
